@@ -19,8 +19,8 @@ func init() {
 		Explanation: "Decides ONE structural clause of 'decoding a well-formed UTF-16BE text string never fails / text reads back unchanged': the decoder's classification of 16-bit code units agrees with the Unicode partition BMP [0000,D7FF] · high surrogates [D800,DBFF] · low surrogates [DC00,DFFF] · BMP [E000,FFFF]. " +
 			"(R1) every comparison of a 16-bit code unit with a constant in types.decodeUTF16String is normalised to a half-line (v <= c, v < c → v <= c-1, v >= c, v > c → v >= c+1; negated branch edges are the same cut) and its cut must be one of the partition's cuts: upper ends D7FF, DBFF, DFFF, FFFF; lower ends 0000, D800, DC00, E000. An off-by-one constant or operator (v > 0xE000) misclassifies a valid character as a surrogate and makes a well-formed string fail to decode. " +
 			"(R2) the encoder side hands the text to the standard library: EncodeUTF16String calls unicode/utf16.Encode and writes the byte order mark FE FF; EscapedUTF16String rejects invalid UTF-8 before encoding. " +
-			"(R3) the decoder cuts the byte order mark off once, outside any loop (U+FEFF as first character is FE FF as well); (R1 also covers the encoder: a hand-written BMP test must cut between FFFF and 10000). (R4) the literal-string unescaper every stored text string passes through ends the escape state whenever an escape sequence has produced its byte (a UTF-16 code unit whose low byte is 5C is written as 5C 5C; if the flag survives, the next byte is taken as an escape letter); (R5) functions that copy a string element by element under a condition drop C0 control bytes only. NOT decided: the round trip itself over all scalar values (surrogate arithmetic is the standard library's), which writer is used for which text entry, PDFDocEncoding/UTF-8 guessing for strings without a byte order mark.",
-		Rules:       []string{"C13.R1 TABLE: code-unit comparisons of the UTF-16 decoder cut exactly at the Unicode partition", "C13.R2 shape: the encoder delegates to unicode/utf16 and writes the byte order mark", "C13.R3 shape: the byte order mark is stripped exactly once", "C13.R4 MPT (go/cfg): in Unescape a byte written inside an escape sequence is followed by an assignment of the escape flag before the next byte", "C13.R5 TABLE: text filters decide per element by a comparison with a constant <= 0x20 only"},
+			"(R3) the decoder cuts the byte order mark off once, outside any loop (U+FEFF as first character is FE FF as well); (R1 also covers the encoder: a hand-written BMP test must cut between FFFF and 10000). (R4) the literal-string unescaper every stored text string passes through ends the escape state whenever an escape sequence has produced its byte (a UTF-16 code unit whose low byte is 5C is written as 5C 5C; if the flag survives, the next byte is taken as an escape letter); (R5) functions that copy a string element by element under a condition drop C0 control bytes only. (R6) in encrypted documents every text string passes decryptAESBytes: the pad-length cut is the writer's range 1..16; (R7) the low-level escaper types.Escape receives the result of EncodeUTF16String, except in listed callers that do not write text strings (content-stream text for a font's encoding, JavaScript of date fields, ciphertext) — a new caller that hands it single-byte text writes a string the reader decodes with another encoding. NOT decided: the round trip itself over all scalar values (surrogate arithmetic is the standard library's), which writer is used for which text entry, PDFDocEncoding/UTF-8 guessing for strings without a byte order mark.",
+		Rules:       []string{"C13.R1 TABLE: code-unit comparisons of the UTF-16 decoder cut exactly at the Unicode partition", "C13.R2 shape: the encoder delegates to unicode/utf16 and writes the byte order mark", "C13.R3 shape: the byte order mark is stripped exactly once", "C13.R4 MPT (go/cfg): in Unescape a byte written inside an escape sequence is followed by an assignment of the escape flag before the next byte", "C13.R5 TABLE: text filters decide per element by a comparison with a constant <= 0x20 only", "C13.R6 TABLE (the cut C22.R3 also decides): AES padding removal cuts exactly after 16", "C13.R7 WMC: types.Escape is handed the UTF-16 writer's result, or is called from a listed function that writes no text string"},
 		Assumptions: []string{"unicode/utf16.Encode / Decode are correct"},
 		Level:       "other",
 		Technique:   "constant/operator table agreement on SSA comparisons of 16-bit values",
@@ -38,6 +38,10 @@ func runC13(c *Ctx) {
 	checkC13Extras(c)
 	checkEscapeStateReset(c, "C13.R4")
 	checkC13TextFilters(c)
+	r.MinInst["C13.R6"] = 1
+	checkAESPaddingCut(c, "C13.R6")
+	r.MinInst["C13.R7"] = 3
+	checkEscapeCallers(c)
 	fid := "pkg/pdfcpu/types.decodeUTF16String"
 	fn := p.Func(fid)
 	if fn == nil {
@@ -239,7 +243,7 @@ func checkC13Extras(c *Ctx) {
 // private use), so the title does not read back unchanged.
 // c13NotTextFilters: filtered copies that do not handle PDF text strings.
 var c13NotTextFilters = map[string]string{
-	"pkg/pdfcpu/types.EncodeName": "name encoder (C12) with a lazily started builder: iterations that write nothing precede the first replacement, and WriteString(s[:i]) then copies those elements wholesale",
+	"pkg/pdfcpu/types.EncodeName":  "name encoder (C12) with a lazily started builder: iterations that write nothing precede the first replacement, and WriteString(s[:i]) then copies those elements wholesale",
 	"pkg/pdfcpu/sanitize.pathPart": "builds a file-system safe file name from an attachment or output name; the result is a path component, never stored as or read back from a PDF text string",
 }
 
@@ -393,5 +397,63 @@ func checkC13TextFilters(c *Ctx) {
 	}
 	if n == 0 {
 		r.Bad("C13.R5", "-", "anchor", "", "UNRESOLVED-ANCHOR: no filtered element copy in a func(string) string found (outlineItemTitle)")
+	}
+}
+
+// ---------------- C13.R7 (round 4 seed C13-F): who may call the low-level escaper ----------------
+
+// c13EscapeCallers: functions that hand types.Escape something other than a UTF-16BE text string, with the reason.
+var c13EscapeCallers = map[string]string{
+	"pkg/pdfcpu/model.PrepBytes":                     "escapes the operand of a Tj text-showing operator in a content stream: bytes in the font's encoding (CP1252 for core fonts, glyph ids for user fonts), not a text string",
+	"pkg/pdfcpu/primitives.(*DateField).prepareDict": "escapes the JavaScript source of the AFDate actions, ASCII built from the date format's constant name",
+	"pkg/pdfcpu.encryptStringLiteral":                "escapes ciphertext (the encrypted bytes of a string of any kind)",
+	"pkg/pdfcpu.decryptStringLiteral":                "re-escapes the decrypted bytes exactly as they were before encryption (the encoding is whatever the writer of the string chose)",
+}
+
+func checkEscapeCallers(c *Ctx) {
+	p, r := c.P, c.R
+	esc := p.Func("pkg/pdfcpu/types.Escape")
+	if esc == nil {
+		r.Bad("C13.R7", "pkg/pdfcpu/types.Escape", "anchor", "", "UNRESOLVED-ANCHOR")
+		return
+	}
+	n := 0
+	for _, fn := range p.Funcs {
+		if !isSubject(fn) {
+			continue
+		}
+		k := 0
+		eachInstr(fn, func(_ *ssa.BasicBlock, _ int, i ssa.Instruction) {
+			call, ok := i.(*ssa.Call)
+			if !ok {
+				return
+			}
+			if f := staticCallee(call); f == nil || unwrapSynthetic(f) != esc || len(call.Call.Args) != 1 {
+				return
+			}
+			k++
+			n++
+			construct := fmt.Sprintf("call of types.Escape#%d", k)
+			pos := p.Pos(call.Pos())
+			fromUTF16 := false
+			for _, l := range valueLeaves(call.Call.Args[0]) {
+				if cl, ok := l.(*ssa.Call); ok {
+					if _, ref := callRef(cl); strings.HasSuffix(ref, "types.EncodeUTF16String") {
+						fromUTF16 = true
+					}
+				}
+			}
+			switch {
+			case fromUTF16:
+				r.OK("C13.R7", FuncID(fn), construct, pos, "the argument is the result of EncodeUTF16String", true)
+			case c13EscapeCallers[FuncID(fn)] != "":
+				r.OK("C13.R7", FuncID(fn), construct, pos, "listed: "+c13EscapeCallers[FuncID(fn)], false)
+			default:
+				r.Bad("C13.R7", FuncID(fn), construct, pos, "a string object is escaped from bytes that are not the UTF-16BE writer's output, in a function that is not listed as writing something other than a text string: text stored in a single-byte encoding is read back through the UTF-16 / UTF-8 / PDFDocEncoding guess and comes out as other characters (U+00A0, C1 controls, byte sequences that happen to be UTF-8)")
+			}
+		})
+	}
+	if n == 0 {
+		r.Bad("C13.R7", FuncID(esc), "anchor", "", "UNRESOLVED-ANCHOR: types.Escape has no callers")
 	}
 }
